@@ -373,13 +373,13 @@ func (s *pbfSource) Read(options ReadOptions, emit Emit, ctx context.Context) er
 					case osm.ElementTypeNode:
 						id = FromOSMNodeID(m.NodeID()).FeatureID()
 					case osm.ElementTypeWay:
-						if s.areaWays.Has(uint64(e.ID)) {
+						if s.areaWays.Has(uint64(m.ID)) {
 							id = AreaIDFromOSMWayID(m.WayID()).FeatureID()
 						} else {
 							id = FromOSMWayID(m.WayID()).FeatureID()
 						}
 					case osm.ElementTypeRelation:
-						if s.areaRelations.Has(uint64(e.ID)) {
+						if s.areaRelations.Has(uint64(m.ID)) {
 							id = AreaIDFromOSMRelationID(m.RelationID()).FeatureID()
 						} else {
 							id = FromOSMRelationID(m.RelationID()).FeatureID()
